@@ -15,6 +15,10 @@ def lcEff (g : G) (i : Nat) : Option Nat :=
   | some he => if he.index = i then lcStep (g.sg i).lc he.ev else some (g.sg i).lc
   | none => some (g.sg i).lc
 
+/-- … unless that event is stale (it belongs to an incarnation that `reset_address()` has replaced):
+then it does not count. -/
+def lcNow (g : G) (i : Nat) : Option Nat := if g.staleEv then some (g.sg i).lc else lcEff g i
+
 /-- Life-cycle value against the peripheral state. -/
 structure LcOk (v : Nat) (p : Peripheral) : Prop where
   le : v ≤ 2
@@ -27,7 +31,7 @@ structure Inv14 (g : G) : Prop where
   /-- none lost, none duplicated -/
   exact : g.collected = true → g.produced = g.taken ++ g.m.lastEvents.peripheral.toList
   lc : g.collected = true → ∀ (i : Nat) (p : Peripheral), g.m.slots[i]? = some (some p) →
-    ∃ v, lcEff g i = some v ∧ LcOk v p
+    ∃ v, lcNow g i = some v ∧ LcOk v p
 
 theorem lcOk_same {v : Nat} {p p' : Peripheral} (h : LcOk v p) (hs : p'.state = p.state) : LcOk v p' :=
   ⟨h.le, by rw [hs]; exact h.off, by rw [hs]; exact h.dx⟩
@@ -110,11 +114,16 @@ theorem rx_lc {p p' : Peripheral} {t : Telegram} {ev : Option PEvent} (h : RxSpe
 theorem lcEff_none {g : G} (h : g.m.lastEvents.peripheral = none) (i : Nat) : lcEff g i = some (g.sg i).lc := by
   simp [lcEff, h]
 
+theorem lcNow_none {g : G} (h : g.m.lastEvents.peripheral = none) (i : Nat) : lcNow g i = some (g.sg i).lc := by
+  unfold lcNow; rw [lcEff_none h]; split <;> rfl
+
+theorem lcNow_fresh {g : G} (h : g.staleEv = false) (i : Nat) : lcNow g i = lcEff g i := by
+  unfold lcNow; rw [h]; rfl
+
 theorem toList_none {α : Type} {o : Option α} (h : o = none) : o.toList = [] := by subst h; rfl
 
 theorem inv14_step {fp : FdlParams} (hfp : FpOk fp) {g g' : G} (hI : Inv fp g) (h4 : Inv14 g) (op : Op)
-    (h : gstep fp g op = .ok g') (hu : g'.tainted = false) : Inv14 g' := by
-  have hu0 := tainted_mono op h hu
+    (h : gstep fp g op = .ok g') : Inv14 g' := by
   -- what `collected` gives for the state before a callback
   have before : (g.collected && !g.dirty) = true →
       g.m.lastEvents.peripheral = none ∧ g.produced = g.taken ∧
@@ -125,7 +134,7 @@ theorem inv14_step {fp : FdlParams} (hfp : FpOk fp) {g g' : G} (hI : Inv fp g) (
     refine ⟨hn, by have := h4.exact hc.1; rw [hn] at this; simpa using this, ?_⟩
     intro i p hi
     obtain ⟨v, hv, hok⟩ := h4.lc hc.1 i p hi
-    rw [lcEff_none hn] at hv
+    rw [lcNow_none hn] at hv
     simp only [Option.some.injEq] at hv
     rw [hv]; exact hok
   cases op with
@@ -139,7 +148,7 @@ theorem inv14_step {fp : FdlParams} (hfp : FpOk fp) {g g' : G} (hI : Inv fp g) (
         rw [hp]; simp [G.polled]
       · intro hc i p hi
         obtain ⟨_, _, hl⟩ := before hc
-        exact ⟨(g.sg i).lc, by simp [lcEff, G.polled], hl i p hi⟩
+        exact ⟨(g.sg i).lc, by simp [lcNow, lcEff, G.polled], hl i p hi⟩
     | idle m' hD _ hn =>
       refine ⟨(by intro hd; cases hd), ?_, ?_⟩
       · intro hc
@@ -149,7 +158,7 @@ theorem inv14_step {fp : FdlParams} (hfp : FpOk fp) {g g' : G} (hI : Inv fp g) (
       · intro hc i p hi
         obtain ⟨_, _, hl⟩ := before hc
         have := declined_pres hD (fun i p => LcOk (g.sg i).lc p) (fun i p hJ _ => lcOk_same hJ rfl) hl i p hi
-        exact ⟨(g.sg i).lc, by simp [lcEff, G.polled, hn], this⟩
+        exact ⟨(g.sg i).lc, by simp [lcNow, lcEff, G.polled, hn], this⟩
     | send m1 i p p' hd pdu hD hM1 hc hts =>
       refine ⟨(by intro hd; cases hd), ?_, ?_⟩
       · intro hcc
@@ -166,7 +175,7 @@ theorem inv14_step {fp : FdlParams} (hfp : FpOk fp) {g g' : G} (hI : Inv fp g) (
           (by rw [upd_same]; simp only [sgSend]; exact lcOk_same (h1 i p hi) hst)
           (by intro j q hj hJ; rw [upd_other _ _ hj]; exact hJ)
         intro j q hq
-        exact ⟨_, by simp [lcEff, G.polled], key j q hq⟩
+        exact ⟨_, by simp [lcNow, lcEff, G.polled], key j q hq⟩
     | off m1 index i p hD hM1 hcy hc hret =>
       have hev : (afterDecline m1 index i p { p with state := .offline, fcb := .first, retry := 0 } (some .offline)).lastEvents.peripheral
           = some { index := i, address := p.address, ev := .offline } := by
@@ -196,16 +205,21 @@ theorem inv14_step {fp : FdlParams} (hfp : FpOk fp) {g g' : G} (hI : Inv fp g) (
           simp only [(curSlot_spec hc).2.1, if_true, Option.some.injEq] at hq
           subst hq
           refine ⟨0, ?_, by omega, by simp, by simp⟩
-          simp only [lcEff, G.polled, hev, if_true, upd_same, sgOffline]
+          simp only [lcNow, Bool.false_eq_true, ↓reduceIte, lcEff, G.polled, hev, if_true, upd_same, sgOffline]
           have hle := hlc.le
           have : (g.sg i).lc = 1 ∨ (g.sg i).lc = 2 := by omega
           rcases this with h12 | h12 <;> rw [h12] <;> rfl
         · simp only [hij, if_false] at hq
           refine ⟨(g.sg j).lc, ?_, h1 j q hq⟩
-          simp only [lcEff, G.polled, hev, hij, if_false]
+          simp only [lcNow, Bool.false_eq_true, ↓reduceIte, lcEff, G.polled, hev, hij, if_false]
           rw [upd_other _ _ (fun h => hij h.symm)]
   | reply a t =>
-    obtain ⟨index, i, p, p', ev, ho, hcy, hc, hpa, hal, hspec, rfl⟩ := reply_form hI hu0 h
+    have hst : Stale g a g' → Inv14 g' := by
+      rintro ⟨_, _, _, _, _, _, _, rfl⟩
+      exact ⟨h4.clean, h4.exact, h4.lc⟩
+    rcases reply_cases hI h with hdel | hs
+    case inr => exact hst hs
+    obtain ⟨index, i, p, p', ev, ho, hcy, hc, hpa, hal, hspec, rfl⟩ := hdel
     have hi := (curSlot_spec hc).2.2.1
     refine ⟨(by intro hd; cases hd), ?_, ?_⟩
     · intro hcc
@@ -223,13 +237,13 @@ theorem inv14_step {fp : FdlParams} (hfp : FpOk fp) {g g' : G} (hI : Inv fp g) (
         simp only [(curSlot_spec hc).2.1, if_true, Option.some.injEq] at hq
         subst hq
         refine ⟨v', ?_, hok'⟩
-        simp only [lcEff, afterReply, upd_same, sgReply]
+        simp only [lcNow, Bool.false_eq_true, ↓reduceIte, lcEff, afterReply, upd_same, sgReply]
         cases ev with
         | none => simpa using hv'
         | some e => simpa using hv'
       · simp only [hij, if_false] at hq
         refine ⟨(g.sg j).lc, ?_, hl j q hq⟩
-        simp only [lcEff, afterReply]
+        simp only [lcNow, Bool.false_eq_true, ↓reduceIte, lcEff, afterReply]
         rw [upd_other _ _ (fun h => hij h.symm)]
         cases ev with
         | none => rfl
@@ -254,36 +268,83 @@ theorem inv14_step {fp : FdlParams} (hfp : FpOk fp) {g g' : G} (hI : Inv fp g) (
             cases hh : g.m.slots[slot]? with
             | none => rw [hh] at hs; cases hs
             | some x => rw [hh] at hs; simp only [Option.getD_some] at hs; rw [hs]
-          simp only [Bool.or_eq_false_iff] at hu
-          have hpend : ∀ he, g.m.lastEvents.peripheral = some he → he.index ≠ slot := by
-            intro he hhe hidx
-            have h2 := hu.2
-            simp [resetTaints, hhe, hidx] at h2
           refine ⟨h4.clean, h4.exact, ?_⟩
           intro hcc i q hq
           simp only at hq
           rw [List.getElem?_set] at hq
-          by_cases hij : slot = i
-          · subst hij
-            have hl : slot < g.m.slots.length := by
-              rcases Nat.lt_or_ge slot g.m.slots.length with h | h
-              · exact h
-              · rw [List.getElem?_eq_none h] at hj; cases hj
-            simp only [hl, if_true, Option.some.injEq] at hq
-            subst hq
-            refine ⟨0, ?_, by omega, by simp [Peripheral.resetAddress], by simp [Peripheral.resetAddress]⟩
-            simp only [lcEff]
-            cases hev : g.m.lastEvents.peripheral with
-            | none => simp [G.upd]
-            | some he => simp [G.upd, hpend he hev]
-          · simp only [hij, if_false] at hq
+          -- the life-cycle value the fresh ghost reports for slot `i` without counting a stale event
+          have plain : ∀ (i : Nat) (q : Peripheral), slot ≠ i → g.m.slots[i]? = some (some q) →
+              (g.staleEv = true ∨ ∀ he, g.m.lastEvents.peripheral = some he → he.index ≠ i) → LcOk (g.sg i).lc q := by
+            intro i q _ hq hor
             obtain ⟨v, hv, hok⟩ := h4.lc hcc i q hq
-            refine ⟨v, ?_, hok⟩
-            have hne : ¬ i = slot := fun h => hij h.symm
-            simp only [lcEff] at hv ⊢
-            cases hev : g.m.lastEvents.peripheral with
-            | none => rw [hev] at hv; simpa [G.upd, hne] using hv
-            | some he => rw [hev] at hv; simpa [G.upd, hne] using hv
+            rcases hor with hs | hne
+            · simp only [lcNow, hs, if_true, Option.some.injEq] at hv
+              rw [hv]; exact hok
+            · cases hsv : g.staleEv with
+              | true =>
+                simp only [lcNow, hsv, if_true, Option.some.injEq] at hv
+                rw [hv]; exact hok
+              | false =>
+                rw [lcNow_fresh hsv] at hv
+                simp only [lcEff] at hv
+                cases hev : g.m.lastEvents.peripheral with
+                | none => rw [hev] at hv; simp only [Option.some.injEq] at hv; rw [hv]; exact hok
+                | some he =>
+                  rw [hev] at hv
+                  simp only [if_neg (hne he hev), Option.some.injEq] at hv
+                  rw [hv]; exact hok
+          cases hnew : (g.staleEv || resetStaleEv g slot) with
+          | true =>
+            -- the pending event (if any) is stale: it does not count
+            simp only [lcNow, hnew, if_true]
+            by_cases hij : slot = i
+            · subst hij
+              have hl : slot < g.m.slots.length := by
+                rcases Nat.lt_or_ge slot g.m.slots.length with h | h
+                · exact h
+                · rw [List.getElem?_eq_none h] at hj; cases hj
+              simp only [hl, if_true, Option.some.injEq] at hq
+              subst hq
+              exact ⟨0, by simp [G.upd], by omega, by simp [Peripheral.resetAddress], by simp [Peripheral.resetAddress]⟩
+            · simp only [hij, if_false] at hq
+              have hne : ¬ i = slot := fun h => hij h.symm
+              refine ⟨(g.sg i).lc, by simp [G.upd, hne], plain i q hij hq ?_⟩
+              simp only [Bool.or_eq_true] at hnew
+              rcases hnew with hs | hr
+              · exact .inl hs
+              · right
+                intro he hhe hidx
+                simp only [resetStaleEv, hhe, beq_iff_eq] at hr
+                exact hij (hr.symm.trans hidx)
+          | false =>
+            simp only [Bool.or_eq_false_iff] at hnew
+            have hpend : ∀ he, g.m.lastEvents.peripheral = some he → he.index ≠ slot := by
+              intro he hhe hidx
+              have h2 := hnew.2
+              simp [resetStaleEv, hhe, hidx] at h2
+            simp only [lcNow, hnew.1, Bool.false_or, hnew.2, Bool.false_eq_true, if_false]
+            by_cases hij : slot = i
+            · subst hij
+              have hl : slot < g.m.slots.length := by
+                rcases Nat.lt_or_ge slot g.m.slots.length with h | h
+                · exact h
+                · rw [List.getElem?_eq_none h] at hj; cases hj
+              simp only [hl, if_true, Option.some.injEq] at hq
+              subst hq
+              refine ⟨0, ?_, by omega, by simp [Peripheral.resetAddress], by simp [Peripheral.resetAddress]⟩
+              simp only [lcEff]
+              cases hev : g.m.lastEvents.peripheral with
+              | none => simp [G.upd]
+              | some he => simp [G.upd, hpend he hev]
+            · simp only [hij, if_false] at hq
+              obtain ⟨v, hv, hok⟩ := h4.lc hcc i q hq
+              refine ⟨v, ?_, hok⟩
+              have hne : ¬ i = slot := fun h => hij h.symm
+              rw [lcNow_fresh hnew.1] at hv
+              simp only [lcEff] at hv ⊢
+              cases hev : g.m.lastEvents.peripheral with
+              | none => rw [hev] at hv; simpa [G.upd, hne] using hv
+              | some he => rw [hev] at hv; simpa [G.upd, hne] using hv
   | timeout a =>
     simp only [gstep] at h
     split at h
@@ -301,21 +362,29 @@ theorem inv14_step {fp : FdlParams} (hfp : FpOk fp) {g g' : G} (hI : Inv fp g) (
     · intro hcc i p hi
       obtain ⟨v, hv, hok⟩ := h4.lc hcc i p hi
       refine ⟨v, ?_, hok⟩
-      simp only [lcEff]
+      -- nothing is pending afterwards
+      rw [lcNow_none rfl]
       cases hev : g.m.lastEvents.peripheral with
       | none =>
-        rw [lcEff_none hev] at hv
+        rw [lcNow_none hev] at hv
         simpa using hv
       | some he =>
-        simp only [lcEff, hev] at hv
-        by_cases hj : he.index = i
-        · subst hj
-          rw [if_pos rfl] at hv
-          simp [G.upd, sgTake, hv]
-        · rw [if_neg hj] at hv
-          simp only [Option.some.injEq] at hv
-          have : ¬ i = he.index := fun h => hj h.symm
-          simp [G.upd, this, hv]
+        cases hsv : g.staleEv with
+        | true =>
+          -- a stale event is handed out but not counted
+          simp only [lcNow, hsv, if_true] at hv
+          simpa using hv
+        | false =>
+          rw [lcNow_fresh hsv] at hv
+          simp only [lcEff, hev] at hv
+          by_cases hj : he.index = i
+          · subst hj
+            rw [if_pos rfl] at hv
+            simp [G.upd, sgTake, hv]
+          · rw [if_neg hj] at hv
+            simp only [Option.some.injEq] at hv
+            have : ¬ i = he.index := fun h => hj h.symm
+            simp [G.upd, this, hv]
   | writeQ slot bs =>
     simp only [gstep] at h
     cases hw : g.m.writePiQ slot bs with
@@ -389,14 +458,14 @@ theorem inv14_step {fp : FdlParams} (hfp : FpOk fp) {g g' : G} (hI : Inv fp g) (
           subst hq
           obtain ⟨v, hv, hok⟩ := h4.lc hcc slot p hj
           exact ⟨v, (by
-            simp only [lcEff] at hv ⊢
+            simp only [lcNow, lcEff] at hv ⊢
             cases hev : g.m.lastEvents.peripheral with
             | none => rw [hev] at hv; simp only [hlc']; exact hv
             | some he => rw [hev] at hv; simp only [hlc']; exact hv), lcOk_same hok rfl⟩
         · simp only [hij, if_false] at hq
           obtain ⟨v, hv, hok⟩ := h4.lc hcc i q hq
           exact ⟨v, (by
-            simp only [lcEff] at hv ⊢
+            simp only [lcNow, lcEff] at hv ⊢
             cases hev : g.m.lastEvents.peripheral with
             | none => rw [hev] at hv; simp only [hlc']; exact hv
             | some he => rw [hev] at hv; simp only [hlc']; exact hv), hok⟩
